@@ -8,6 +8,7 @@ import (
 	"math"
 	"reflect"
 	"sort"
+	"strings"
 	"time"
 	"unsafe"
 
@@ -277,7 +278,12 @@ func fill(t *rapid.T, v reflect.Value, o Opt, depth int, path string) {
 	case reflect.Interface:
 		switch {
 		case typ == tRef:
-			if rapid.IntRange(0, 4).Draw(t, "nilref") == 0 {
+			// only in exported fields (what a user can build); the library's own unexported fields are filled from
+			// ctx.Sender() and the like, which never hold a typed nil
+			if o.NilPointers && exportedLeaf(path) && rapid.IntRange(0, 5).Draw(t, "typedNilRef") == 0 {
+				// a nil *actor.Ref inside the interface (the unchecked result of a failed reference construction)
+				set(v, reflect.ValueOf((*actor.Ref)(nil)).Convert(typ))
+			} else if rapid.IntRange(0, 4).Draw(t, "nilref") == 0 {
 				set(v, reflect.Zero(typ))
 			} else {
 				set(v, reflect.ValueOf(GenRef(t)).Convert(typ))
@@ -309,6 +315,13 @@ func fill(t *rapid.T, v reflect.Value, o Opt, depth int, path string) {
 
 // FillValue fills an addressable value of a plain (primitive / slice / array / struct) type.
 func FillValue(t *rapid.T, v reflect.Value) { fill(t, v, Opt{}, 0, "") }
+
+// exportedLeaf reports whether the last field name of a fill path is exported.
+func exportedLeaf(path string) bool {
+	i := strings.LastIndex(path, ".")
+	name := path[i+1:]
+	return name != "" && name[0] >= 'A' && name[0] <= 'Z'
+}
 
 // ---------------------------------------------------------------------------
 // semantic equality
@@ -445,9 +458,12 @@ func Equal(want, got reflect.Value, path string) error {
 	case reflect.Interface:
 		switch {
 		case typ == tRef:
-			if want.IsNil() || got.IsNil() {
-				if want.IsNil() != got.IsNil() {
-					return fmt.Errorf("%s: ref nil-ness differs (want nil=%v, got nil=%v)", path, want.IsNil(), got.IsNil())
+			nilRef := func(v reflect.Value) bool {
+				return v.IsNil() || (v.Elem().Kind() == reflect.Pointer && v.Elem().IsNil())
+			}
+			if nilRef(want) || nilRef(got) {
+				if nilRef(want) != nilRef(got) {
+					return fmt.Errorf("%s: ref nil-ness differs (want nil=%v, got nil=%v)", path, nilRef(want), nilRef(got))
 				}
 				return nil
 			}
